@@ -30,7 +30,7 @@ pub fn legs(prop: &str, tier: Tier) -> Vec<Leg> {
     match prop {
         "C08" => {
             if simd {
-                vec![leg("chunk-simd", "chunk", if q { 100_000 } else { 5_000_000 }, &["final", "chunk.0", "chunk.=fill", "pending.B"])]
+                vec![leg("chunk-simd", "chunk", if q { 400_000 } else { 5_000_000 }, &["final", "chunk.0", "chunk.=fill", "pending.B"])]
             } else if n {
                 vec![]
             } else {
